@@ -18,6 +18,7 @@ import (
 	"sort"
 	"strings"
 	"sync"
+	"sync/atomic"
 
 	"github.com/postalsys/muti-metroo/internal/filetransfer"
 	"github.com/postalsys/muti-metroo/internal/health"
@@ -529,7 +530,73 @@ func main() {
 		return target + q
 	}
 
+	// concurrent storm on one token-protected server: some clients present the
+	// right token, the others wrong ones (fresh and repeated); a wrong token
+	// must never pass, whatever the token cache is doing at that moment
+	type stormSpec struct {
+		Kind    string `json:"kind"`
+		Clients int    `json:"clients"`
+		Each    int    `json:"each"`
+	}
+	tokenStorm := func(sp stormSpec) {
+		sp.Kind = "token-storm"
+		srv, err := newServer(flags{true, true, true}, string(hash))
+		if err != nil {
+			panic(err)
+		}
+		var wrongPassed, rightRejected, actionsForWrong int64
+		var wg sync.WaitGroup
+		start := make(chan struct{})
+		for g := 0; g < sp.Clients; g++ {
+			wg.Add(1)
+			go func(g int) {
+				defer wg.Done()
+				<-start
+				for i := 0; i < sp.Each; i++ {
+					right := g%3 == 0
+					tok := rightToken
+					if !right {
+						tok = fmt.Sprintf("wrong-%d", (g*7+i)%5) // few distinct wrong tokens, repeated
+					}
+					req, err := parse(reqSpec{Method: "POST", Target: "/routes/advertise", Auth: []string{"Bearer " + tok}})
+					if err != nil {
+						panic(err)
+					}
+					rec := httptest.NewRecorder()
+					srv.h.ServeHTTP(rec, req)
+					switch {
+					case right && rec.Code == 401:
+						atomic.AddInt64(&rightRejected, 1)
+					case !right && rec.Code != 401:
+						atomic.AddInt64(&wrongPassed, 1)
+					}
+				}
+			}(g)
+		}
+		close(start)
+		wg.Wait()
+		_ = actionsForWrong
+		c.Count("kind:token-storm")
+		if wrongPassed > 0 {
+			c.Fail("wrong-token-passed-under-concurrency", fmt.Sprintf("%d requests with a wrong token were not answered 401 while other clients presented the right token", wrongPassed), sp)
+		}
+		if rightRejected > 0 {
+			c.Count("token-storm:right-token-rejected")
+		}
+	}
+
 	if c.Replay != "" {
+		var probe struct {
+			Kind string `json:"kind"`
+		}
+		c.ReadReplay(&probe)
+		if probe.Kind == "token-storm" {
+			var sp stormSpec
+			c.ReadReplay(&sp)
+			tokenStorm(sp)
+			flush()
+			return
+		}
 		var rs reqSpec
 		if err := c.ReadReplay(&rs); err != nil {
 			panic(err)
@@ -578,6 +645,10 @@ func main() {
 			if c.Thorough() || (i+int(c.Seed))%2 == 1 {
 				run(reqSpec{Method: "GET", Target: s, Auth: []string{"Bearer " + rightToken}, Flags: flags{false, false, false}, Token: true})
 			}
+		}
+		// 4b. concurrent token storms
+		for i := 0; i < c.N(3, 30); i++ {
+			tokenStorm(stormSpec{Clients: c.Rand.Pick(4, 8, 12), Each: c.Rand.Pick(30, 60)})
 		}
 		if c.Thorough() {
 			// exhaustive product (flags x token configured x presentations x spellings x methods), presentations reduced to 6 classes
